@@ -18,7 +18,8 @@ class Check(PropertyCheck):
 
     def families(self, rng, tier):
         return [("formulas.compute_swap", fam_swap.swap_cases(rng, tier)),
-                ("world.general", fam_world.general_histories(rng, tier, n_hist={"quick": 5, "thorough": 50}[tier]))]
+                ("world.general", fam_world.general_histories(rng, tier, n_hist={"quick": 5, "thorough": 50}[tier])),
+                ("world.lookalike", fam_world.lookalike_histories(rng, tier))]
 
     def witnesses(self):
         w = fam_swap.WITNESSES
